@@ -47,7 +47,7 @@ Qed.
 (** the reference journal performs one storage read for the length word plus one per 32 bytes of a long string *)
 Theorem vr_reads_formula st slot :
   vr_reads st slot = match extract_storage_len (st slot) with
-                     | Ok len => if len <? 32 then 1 else 1 + ceil32 len
+                     | Ok len => if len <? 32 then 1 else 1 + u64_ceiling32 len
                      | _ => 1 end.
 Proof. reflexivity. Qed.
 
@@ -59,7 +59,7 @@ Proof.
   intros K HK. exists (fun _ => 2 * (32 * (K + 1)) + 1), 0. unfold vr_reads.
   rewrite extract_len_valid.
   - replace ((2 * (32 * (K + 1)) + 1) mod 2 =? 0) with false by lia.
-    replace ((2 * (32 * (K + 1)) + 1) / 2 <? 32) with false by lia. unfold ceil32. lia.
+    replace ((2 * (32 * (K + 1)) + 1) / 2 <? 32) with false by lia. rewrite u64_ceiling32_is_ceil32. unfold ceil32. lia.
   - unfold valid_len_word. replace ((2 * (32 * (K + 1)) + 1) mod 2 =? 0) with false by lia. lia.
   - intros _. unfold two64. lia.
 Qed.
@@ -67,7 +67,7 @@ Qed.
 (** what is proved instead: the work is bounded by the encoded length (and by nothing smaller) *)
 Theorem vr_work_partial st slot len :
   extract_storage_len (st slot) = Ok len -> vr_reads st slot <= 2 + len / 32.
-Proof. intros H. unfold vr_reads. rewrite H. destruct (len <? 32); unfold ceil32; lia. Qed.
+Proof. intros H. unfold vr_reads. rewrite H. destruct (len <? 32); rewrite ?u64_ceiling32_is_ceil32; unfold ceil32; lia. Qed.
 
 (** the value journal reads one slot and copies at most 32 bytes *)
 Theorem vv_output_bounded w off size b : vv_slice w off size = Ok b -> blen b <= 32.
